@@ -20,7 +20,7 @@ EXTRACTS = ["Solver", "C14"]
 THEOREMS = ["C07_listing_order_free_partial", "C07_listing_order_tie_refuted", "C07_spelling_irrelevant",
             "C07_sort_is_a_function_of_the_set_partial", "C07_index_page_listing_order_free_partial",
             "C07_index_page_entry_independent_partial", "C07_whole_compile_listing_order_free", "C07_compile_depends_on_answers_only", "C07_names_differing_in_separators_or_case_are_one_project"]
-MODES = ["calm", "conflict", "extras", "dense", "cascade"]
+MODES = ["calm", "conflict", "extras", "dense", "cascade", "triconflict", "triconflict"]
 RULE = ("(a) whole-compile correspondence of the real solver with the model, which is a function of the logical input; "
         "(b) metamorphic runs of the real code against its own base run: candidate listings shuffled, input lines and "
         "input files reordered, project names respelled (case, '-', '_', '.'), the same compile repeated after 1-3 unrelated "
@@ -211,10 +211,104 @@ def correspondence(ctx: Ctx) -> None:
     new_found += discovery_order_metamorphic(ctx)
     new_found += index_page_order_metamorphic(ctx)
     new_found += release_spelling_metamorphic(ctx)
+    new_found += discovery_threads_metamorphic(ctx)
     ctx._found = new_found  # type: ignore[attr-defined]
     if new_found:
         ctx.mismatch("metamorphic", {"variant": new_found[0]["variant"], "base": new_found[0]["base"]},
                      new_found[0]["base_out"], new_found[0]["variant_out"])
+
+
+PEP517_BACKEND = '''
+"""in-process PEP 517 backend of the C07 harness: metadata from ./pyproject.toml; slow enough for two discovery threads to overlap"""
+import os, threading, time
+import toml
+_MUTEX = threading.Lock()
+_ARRIVED = set()
+OVERLAP = False
+def reset():
+    with _MUTEX:
+        _ARRIVED.clear()
+def prepare_metadata_for_build_wheel(metadata_directory, config_settings=None, **unsupported):
+    with _MUTEX:
+        _ARRIVED.add(threading.get_ident())
+    if unsupported:
+        raise TypeError("unexpected arguments: " + ", ".join(sorted(unsupported)))
+    if OVERLAP:
+        deadline = time.time() + 3.0
+        while time.time() < deadline:
+            with _MUTEX:
+                if len(_ARRIVED) >= 2:
+                    break
+            time.sleep(0.01)
+        time.sleep(0.2)
+    project = toml.load("pyproject.toml")["project"]
+    info = "{}-{}.dist-info".format(project["name"], project["version"])
+    os.mkdir(os.path.join(metadata_directory, info))
+    with open(os.path.join(metadata_directory, info, "METADATA"), "w", encoding="utf-8") as fh:
+        fh.write("Metadata-Version: 2.1\\nName: {}\\nVersion: {}\\n".format(project["name"], project["version"]))
+        for dep in project.get("dependencies", []):
+            fh.write("Requires-Dist: {}\\n".format(dep))
+    return info
+'''
+
+
+def discovery_threads_metamorphic(ctx: Ctx) -> List[Dict[str, Any]]:
+    """Thread scheduling during source discovery: a tree of PEP 517 projects (an in-process backend that takes the standard
+    hook arguments only, so the analysis goes through the serialised path) discovered with 1 and with 2 threads, named by a
+    RELATIVE path from inside the workspace - the offered set and the working directory of the process must be the same."""
+    import importlib
+    import os
+    import sys
+    import req_compile.repos.source as S
+    try:
+        import toml  # noqa: F401
+    except Exception:  # noqa: BLE001
+        ctx.count("discovery-threads:skipped(no toml)")
+        return []
+    out: List[Dict[str, Any]] = []
+    root = str(ctx.tmpdir() / "threads")
+    os.makedirs(os.path.join(root, "backend"))
+    with open(os.path.join(root, "backend", "c07_backend.py"), "w") as fh:
+        fh.write(PEP517_BACKEND)
+    names = ["proja", "projb", "projc"][: ctx.rng.choice([2, 3])]
+    for nm in names:
+        d = os.path.join(root, "work", "src", nm)
+        os.makedirs(d)
+        with open(os.path.join(d, "pyproject.toml"), "w") as fh:
+            fh.write('[build-system]\nrequires = []\nbuild-backend = "c07_backend"\n\n[project]\nname = "{}"\nversion = "1.0"\ndependencies = []\n'.format(nm))
+    old_cwd = os.getcwd()
+    sys.path.insert(0, os.path.join(root, "backend"))
+    try:
+        backend = importlib.import_module("c07_backend")
+        os.chdir(os.path.join(root, "work"))
+        here = os.getcwd()
+        results = []
+        for par in (1, 2, 2, 1):
+            backend.reset()
+            backend.OVERLAP = par > 1
+            try:
+                repo = S.SourceRepository("src", parallelism=par)
+                got: Any = sorted((c.name, str(c.version)) for c in repo.get_candidates(None))
+            except BaseException as ex:  # noqa: BLE001
+                common.reraise_harness_fault(ex)
+                got = ["EXC", type(ex).__name__]
+            cwd_after = os.getcwd()
+            results.append((par, got, os.path.relpath(cwd_after, here)))
+            ctx.count("variant:discovery-threads")
+            ctx.case(key=("threads", ctx.seed, par, len(results)), nontrivial=True)
+            os.chdir(here)
+        base = results[0]
+        for par, got, cwd_rel in results:
+            if got != base[1] or cwd_rel != ".":
+                ctx.count("differs:discovery-threads")
+                out.append({"variant": "discovery-threads:%d" % par, "base": {"projects": names, "backend": "c07_backend (standard hook arguments only)"},
+                            "base_out": [base[1], "."], "variant_out": [got, cwd_rel]})
+                break
+    finally:
+        os.chdir(old_cwd)
+        sys.path.remove(os.path.join(root, "backend"))
+        sys.modules.pop("c07_backend", None)
+    return out
 
 
 def release_spelling_metamorphic(ctx: Ctx) -> List[Dict[str, Any]]:
@@ -467,6 +561,8 @@ def replay(ctx: Ctx, payload: Dict[str, Any]) -> bool:
     if fi and fi.get("changed_page"):
         t = tuple(fi["input"]["base"]["interp"])
         return page_offered(fi["input"]["base"]["page"], t)[2] != page_offered(fi["changed_page"], t)[2]
+    if fi and str(fi["input"].get("variant", "")).startswith("discovery-threads"):
+        return bool(discovery_threads_metamorphic(ctx)) or bool(discovery_threads_metamorphic(ctx))
     if fi and str(fi["input"].get("variant", "")).startswith("hash-seed"):
         seed = fi["input"]["variant"].rsplit("-", 1)[1]
         tmp = ctx.tmpdir()
